@@ -67,6 +67,113 @@ Proof. vm_compute. reflexivity. Qed.
 Lemma listarg_not_sqlval : (T_ListArg =? T_SQLVal) = false.
 Proof. vm_compute. reflexivity. Qed.
 
+(** ---------- the visit functions never cut the walk (finite checks over the regenerated tables) ----------
+    Walk goes below a node only if the visit function returns kontinue = true.  A clause is fine when
+      - it is understood by the reader (no VA_unknown, VR_unknown);
+      - `Walk(nz.WalkSelect, node)` occurs in WalkStatement only and that clause returns false (the subtree is walked
+        once, by WalkSelect: what [dispatch] models);
+      - otherwise it returns true for every answer its handler can give (convertComparison: after replacing
+        node.Right and after leaving the node alone; the other handlers report nothing). *)
+Definition is_stop (r : vreturn) : bool := match r with VR_stop => true | _ => false end.
+
+Definition clause_ok (sel : bool) (c : vclause) : bool :=
+  match vc_action c with
+  | VA_unknown => false
+  | VA_walk_select => negb sel && is_stop (vc_return c)
+  | VA_convert_comparison =>
+      CMP_REPORTS_UNDERSTOOD && (continues (vc_return c) CMP_REPORTS_REPLACED && continues (vc_return c) CMP_REPORTS_UNCHANGED)
+  | _ => continues (vc_return c) false
+  end.
+
+Definition visit_tables_check : bool :=
+  REDACT_ENTRY_KNOWN &&
+  (forallb (clause_ok false) (visit_table false) && clause_ok false (visit_default false) &&
+   (forallb (clause_ok true) (visit_table true) && clause_ok true (visit_default true))).
+
+Lemma visit_tables_ok : visit_tables_check = true.
+Proof. vm_compute. reflexivity. Qed.
+
+(** both visit functions convert an SQLVal *)
+Definition converts (a : vaction) : bool :=
+  match a with VA_convert_val | VA_convert_val_dedup => true | _ => false end.
+Definition sqlval_converted_check : bool :=
+  converts (vc_action (snd (dispatch false T_SQLVal))) && converts (vc_action (snd (dispatch true T_SQLVal))).
+Lemma sqlval_converted : sqlval_converted_check = true.
+Proof. vm_compute. reflexivity. Qed.
+
+Lemma find_clause_cases ty cs d : find_clause ty cs d = d \/ In (find_clause ty cs d) cs.
+Proof.
+  induction cs as [|c r IH]; cbn [find_clause]; [left; reflexivity|].
+  destruct (vc_type c =? ty).
+  - right. left. reflexivity.
+  - destruct IH as [H|H]; [left; exact H | right; right; exact H].
+Qed.
+
+Lemma clause_of_ok sel ty : clause_ok sel (clause_of sel ty) = true.
+Proof.
+  pose proof visit_tables_ok as H. unfold visit_tables_check in H.
+  apply andb_true_iff in H. destruct H as [_ H].
+  apply andb_true_iff in H. destruct H as [Hf Ht].
+  apply andb_true_iff in Hf. destruct Hf as [Hf1 Hf2].
+  apply andb_true_iff in Ht. destruct Ht as [Ht1 Ht2].
+  unfold clause_of.
+  destruct (find_clause_cases ty (visit_table sel) (visit_default sel)) as [E|E].
+  - rewrite E. destruct sel; assumption.
+  - destruct sel; [rewrite forallb_forall in Ht1; apply Ht1 | rewrite forallb_forall in Hf1; apply Hf1]; exact E.
+Qed.
+
+(** the clause [dispatch] ends with is the one the visit function in charge takes, and it is not a hand-over *)
+Lemma dispatch_spec sel ty :
+  snd (dispatch sel ty) = clause_of (fst (dispatch sel ty)) ty /\
+  vc_action (snd (dispatch sel ty)) <> VA_walk_select.
+Proof.
+  unfold dispatch.
+  destruct (vc_action (clause_of sel ty)) eqn:E; cbn [fst snd];
+    try (split; [reflexivity | rewrite E; discriminate]).
+  pose proof (clause_of_ok sel ty) as Hok. unfold clause_ok in Hok. rewrite E in Hok.
+  destruct sel; [discriminate Hok|]. cbn [fst snd]. split; [reflexivity|].
+  intros E2. pose proof (clause_of_ok true ty) as Hok2. unfold clause_ok in Hok2. rewrite E2 in Hok2.
+  discriminate Hok2.
+Qed.
+
+(** what [norm] computes as "Walk goes below this node" *)
+Definition model_goes_below (sel : bool) (ty : N) (replaced : bool) : bool :=
+  continues (vc_return (snd (dispatch sel ty))) (handled_of (vc_action (snd (dispatch sel ty))) replaced).
+
+(** every node type, both visit functions, whatever the comparison handler did: Walk goes below the node *)
+Theorem visit_never_cuts_walk : forall sel ty replaced, model_goes_below sel ty replaced = true.
+Proof.
+  intros sel ty replaced. unfold model_goes_below.
+  destruct (dispatch_spec sel ty) as [H1 H2].
+  pose proof (clause_of_ok (fst (dispatch sel ty)) ty) as Hok. rewrite <- H1 in Hok.
+  unfold clause_ok in Hok.
+  destruct (vc_action (snd (dispatch sel ty))); cbn [handled_of]; try exact Hok.
+  - apply andb_true_iff in Hok. destruct Hok as [_ Hok].
+    apply andb_true_iff in Hok. destruct Hok as [Ha Hb]. destruct replaced; assumption.
+  - exfalso. apply H2. reflexivity.
+  - discriminate Hok.
+Qed.
+
+(** the run-time probe of the compiled package saw what the model reads from the tables *)
+Definition visit_probe_check : bool :=
+  VISIT_PROBE_RAN && negb (Nat.eqb (length VISIT_PROBE) 0) &&
+  forallb (fun p => match p with (sel, ty, h, obs) => Bool.eqb (model_goes_below sel ty h) obs end) VISIT_PROBE.
+Lemma visit_probe_ok : visit_probe_check = true.
+Proof. vm_compute. reflexivity. Qed.
+
+Theorem visit_probe_agrees :
+  VISIT_PROBE <> [] /\
+  forall sel ty h obs, In (sel, ty, h, obs) VISIT_PROBE -> model_goes_below sel ty h = obs.
+Proof.
+  pose proof visit_probe_ok as H. unfold visit_probe_check in H.
+  apply andb_true_iff in H. destruct H as [H Hall].
+  apply andb_true_iff in H. destruct H as [_ Hne].
+  split.
+  - intros E. rewrite E in Hne. discriminate Hne.
+  - intros sel ty h obs Hin. rewrite forallb_forall in Hall. specialize (Hall _ Hin). cbn beta iota in Hall.
+    apply Bool.eqb_prop in Hall. exact Hall.
+Qed.
+
 (** ---------- sqlToBindvar on literals ---------- *)
 Lemma literal_convertible t : literal_node t = true -> exists q, sql_to_bindvar t = Some q.
 Proof.
@@ -124,14 +231,25 @@ Proof.
       destruct (literal_convertible _ L') as [q Hq]. rewrite Hq in E. discriminate.
 Qed.
 
-Lemma visit_val_not_literal p sel st ty a kids :
-  literal_node (Node ty (snd (visit_val p sel st ty a)) kids) = false.
+Lemma not_sqlval_not_literal ty a kids : (ty =? T_SQLVal) = false -> literal_node (Node ty a kids) = false.
+Proof. intros E. destruct a; cbn [literal_node]; try reflexivity. rewrite E. reflexivity. Qed.
+
+Lemma visit_val_not_literal p act st ty a kids :
+  ((ty =? T_SQLVal) = true -> converts act = true) ->
+  literal_node (Node ty (snd (visit_val p act st ty a)) kids) = false.
 Proof.
-  unfold visit_val. destruct (ty =? T_SQLVal) eqn:Ety.
-  - destruct sel.
-    + destruct (convert_val_dedup_attr p st ty a) as [s [a' [H1 H2]]]. rewrite H1. cbn [snd]. apply H2.
-    + destruct (convert_val_attr p st ty a) as [s [a' [H1 H2]]]. rewrite H1. cbn [snd]. apply H2.
-  - cbn [snd]. destruct a; cbn [literal_node]; try reflexivity. rewrite Ety. reflexivity.
+  intros Hc. destruct (ty =? T_SQLVal) eqn:Ety; [|apply not_sqlval_not_literal; exact Ety].
+  specialize (Hc eq_refl). unfold visit_val. destruct act; try discriminate Hc.
+  - destruct (convert_val_attr p st ty a) as [s [a' [H1 H2]]]. rewrite H1. cbn [snd]. apply H2.
+  - destruct (convert_val_dedup_attr p st ty a) as [s [a' [H1 H2]]]. rewrite H1. cbn [snd]. apply H2.
+Qed.
+
+Lemma dispatch_converts_sqlval sel ty :
+  (ty =? T_SQLVal) = true -> converts (vc_action (snd (dispatch sel ty))) = true.
+Proof.
+  intros E. apply N.eqb_eq in E. subst ty.
+  pose proof sqlval_converted as H. unfold sqlval_converted_check in H.
+  apply andb_true_iff in H. destruct H as [Hf Ht]. destruct sel; assumption.
 Qed.
 
 (** ---------- reachability by Walk ---------- *)
@@ -152,9 +270,9 @@ Inductive desc : tree -> tree -> Prop :=
 Definition repl_ok (repl : option tree) : Prop :=
   match repl with Some l => forall u, reach l u -> literal_node u = false | None => True end.
 
-Lemma visit_cmp_repl_ok p st ty a kids : repl_ok (snd (visit_cmp p st ty a kids)).
+Lemma visit_cmp_repl_ok p act st a kids : repl_ok (snd (visit_cmp p act st a kids)).
 Proof.
-  unfold visit_cmp. destruct (ty =? T_ComparisonExpr); [|exact I].
+  unfold visit_cmp. destruct act; try exact I.
   unfold convert_comparison. destruct a as [|vt val ok|b|nm]; try exact I.
   destruct b; [|exact I].
   destruct (find_kid F_ComparisonExpr_Right kids) as [[tty ta elems]|]; [|exact I].
@@ -169,20 +287,22 @@ Qed.
 Lemma norm_no_literal_mut :
   (forall t p sel st u, reach (snd (norm p sel st t)) u -> literal_node u = false) /\
   (forall ks p sel pty repl st, repl_ok repl ->
-     forall f k', fin f k' (snd (norm_kids p sel pty repl st ks)) -> walked pty f = true ->
+     forall f k', fin f k' (snd (norm_kids p sel pty true repl st ks)) -> walked pty f = true ->
      forall u, reach k' u -> literal_node u = false).
 Proof.
   apply tree_forest_ind.
-  - (* Node *)
+  - (* Node: the visit function returns kontinue = true (visit_never_cuts_walk), so the children are walked *)
     intros ty a kids IHk p sel st u Hu. cbn [norm snd] in Hu.
+    pose proof (visit_never_cuts_walk sel ty) as Hgo. unfold model_goes_below in Hgo.
+    rewrite Hgo in Hu.
     inversion Hu; subst.
-    + apply visit_val_not_literal.
+    + apply visit_val_not_literal. apply dispatch_converts_sqlval.
     + eapply IHk; [apply visit_cmp_repl_ok | eassumption | assumption | assumption].
   - (* FNil *)
     intros p sel pty repl st _ f k' H. cbn [norm_kids snd] in H. inversion H.
   - (* FCons *)
     intros f k IHt r IHr p sel pty repl st Hrepl g k' Hin Hw u Hu.
-    cbn [norm_kids snd] in Hin.
+    cbn [norm_kids snd andb] in Hin.
     inversion Hin as [? ? ? | ? ? ? ? ? Hin']; subst.
     + (* this child *)
       destruct repl as [l|].
@@ -191,7 +311,7 @@ Proof.
         -- rewrite Hw in Hu. cbn [fst snd] in Hu. eapply IHt. exact Hu.
       * rewrite Hw in Hu. cbn [fst snd] in Hu. eapply IHt. exact Hu.
     + (* a later child *)
-      match type of Hin' with fin _ _ (snd (norm_kids _ _ _ ?rp ?s r)) =>
+      match type of Hin' with fin _ _ (snd (norm_kids _ _ _ _ ?rp ?s r)) =>
         eapply (IHr p sel pty rp s); [| exact Hin' | exact Hw | exact Hu] end.
       destruct repl as [l|]; [|exact I].
       destruct (f =? F_ComparisonExpr_Right); [exact I | exact Hrepl].
@@ -271,24 +391,39 @@ Proof.
   - intros f k IHk r IHr. apply srf_cons; assumption.
 Qed.
 
-Lemma visit_val_attr_rel p sel st ty a : attr_rel ty a (snd (visit_val p sel st ty a)).
+Lemma convert_val_shape p st ty a :
+  exists s a', convert_val p st (Node ty a FNil) = (s, Node ty a' FNil) /\ attr_rel ty a a'.
 Proof.
-  unfold visit_val. destruct (ty =? T_SQLVal) eqn:Ety; [|left; reflexivity].
-  destruct a as [|vt val ok|b|nm].
-  - destruct sel; left; reflexivity.
-  - right. split; [exact Ety|]. split; [reflexivity|].
-    destruct sel.
-    + unfold convert_val_dedup.
-      destruct (256 <? N.of_nat (length val)).
-      * unfold convert_val. destruct (sql_to_bindvar (Node ty (AVal vt val ok) FNil)); [|reflexivity].
-        destruct (new_name_split p st) as [st' [nm Hn]]. rewrite Hn. reflexivity.
-      * destruct (sql_to_bindvar (Node ty (AVal vt val ok) FNil)) as [q|]; [|reflexivity].
-        cbv zeta. destruct (assoc_bytes _ (vals st)); [reflexivity|].
-        destruct (new_name_split p st) as [st' [nm Hn]]. rewrite Hn. reflexivity.
-    + unfold convert_val. destruct (sql_to_bindvar (Node ty (AVal vt val ok) FNil)); [|reflexivity].
-      destruct (new_name_split p st) as [st' [nm Hn]]. rewrite Hn. reflexivity.
-  - destruct sel; left; reflexivity.
-  - destruct sel; left; reflexivity.
+  unfold convert_val.
+  destruct (sql_to_bindvar (Node ty a FNil)) as [q|] eqn:E.
+  - destruct a as [|vt val ok|b|nm]; cbn [sql_to_bindvar] in E; try discriminate.
+    destruct (ty =? T_SQLVal) eqn:Ety; [|discriminate].
+    destruct (new_name_split p st) as [st' [nm Hn]]. rewrite Hn.
+    eexists _, _. split; [reflexivity|]. right. split; [exact Ety|]. split; reflexivity.
+  - eexists _, _. split; [reflexivity | left; reflexivity].
+Qed.
+
+Lemma convert_val_dedup_shape p st ty a :
+  exists s a', convert_val_dedup p st (Node ty a FNil) = (s, Node ty a' FNil) /\ attr_rel ty a a'.
+Proof.
+  destruct a as [|vt val ok|b|nm];
+    try (eexists _, _; split; [reflexivity | left; reflexivity]).
+  unfold convert_val_dedup.
+  destruct (256 <? N.of_nat (length val)); [apply convert_val_shape|].
+  destruct (sql_to_bindvar (Node ty (AVal vt val ok) FNil)) as [q|] eqn:E.
+  - cbn [sql_to_bindvar] in E. destruct (ty =? T_SQLVal) eqn:Ety; [|discriminate].
+    cbv zeta. destruct (assoc_bytes _ (vals st)) as [nm|].
+    + eexists _, _. split; [reflexivity|]. right. split; [exact Ety|]. split; reflexivity.
+    + destruct (new_name_split p st) as [st' [nm Hn]]. rewrite Hn.
+      eexists _, _. split; [reflexivity|]. right. split; [exact Ety|]. split; reflexivity.
+  - eexists _, _. split; [reflexivity | left; reflexivity].
+Qed.
+
+Lemma visit_val_attr_rel p act st ty a : attr_rel ty a (snd (visit_val p act st ty a)).
+Proof.
+  unfold visit_val. destruct act; try (left; reflexivity).
+  - destruct (convert_val_shape p st ty a) as [s [a' [H1 H2]]]. rewrite H1. exact H2.
+  - destruct (convert_val_dedup_shape p st ty a) as [s [a' [H1 H2]]]. rewrite H1. exact H2.
 Qed.
 
 Definition repl_shape (repl : option tree) (ks : forest) : Prop :=
@@ -297,9 +432,9 @@ Definition repl_shape (repl : option tree) (ks : forest) : Prop :=
   | None => True
   end.
 
-Lemma visit_cmp_repl_shape p st ty a kids : repl_shape (snd (visit_cmp p st ty a kids)) kids.
+Lemma visit_cmp_repl_shape p act st a kids : repl_shape (snd (visit_cmp p act st a kids)) kids.
 Proof.
-  unfold visit_cmp. destruct (ty =? T_ComparisonExpr); [|exact I].
+  unfold visit_cmp. destruct act; try exact I.
   unfold convert_comparison. destruct a as [|vt val ok|b|nm]; try exact I.
   destruct b; [|exact I].
   destruct (find_kid F_ComparisonExpr_Right kids) as [[tty ta elems]|] eqn:Ef; [|exact I].
@@ -311,22 +446,22 @@ Qed.
 
 Lemma norm_shape_mut :
   (forall t p sel st, shape_rel t (snd (norm p sel st t))) /\
-  (forall ks p sel pty repl st, repl_shape repl ks -> shape_rel_f ks (snd (norm_kids p sel pty repl st ks))).
+  (forall ks p sel pty go repl st, repl_shape repl ks -> shape_rel_f ks (snd (norm_kids p sel pty go repl st ks))).
 Proof.
   apply tree_forest_ind.
   - intros ty a kids IHk p sel st. cbn [norm snd].
     apply sr_node; [apply visit_val_attr_rel | apply IHk; apply visit_cmp_repl_shape].
   - intros. cbn [norm_kids snd]. apply srf_nil.
-  - intros f k IHt r IHr p sel pty repl st Hrepl. cbn [norm_kids snd].
+  - intros f k IHt r IHr p sel pty go repl st Hrepl. cbn [norm_kids snd].
     destruct repl as [l|].
     + cbn [repl_shape find_kid] in Hrepl. destruct Hrepl as [k0 [Hf Hs]].
       destruct (f =? F_ComparisonExpr_Right) eqn:Ef.
       * inversion Hf; subst k0. cbn [fst snd]. apply srf_cons; [exact Hs | apply IHr; exact I].
       * cbn [fst snd]. apply srf_cons.
-        -- destruct (walked pty f); [apply IHt | apply (proj1 shape_refl_mut)].
+        -- destruct (go && walked pty f); [apply IHt | apply (proj1 shape_refl_mut)].
         -- apply IHr. cbn [repl_shape]. eauto.
     + cbn [fst snd]. apply srf_cons.
-      * destruct (walked pty f); [apply IHt | apply (proj1 shape_refl_mut)].
+      * destruct (go && walked pty f); [apply IHt | apply (proj1 shape_refl_mut)].
       * apply IHr. exact I.
 Qed.
 
